@@ -1,6 +1,7 @@
 package main
 
 import (
+	"html/template"
 	"context"
 	"errors"
 	"fmt"
@@ -50,17 +51,30 @@ func runC11(e *emitter, tier string, seed uint64) {
 		if !e.mine(key) {
 			return
 		}
-		comp := templ.ComponentFunc(func(ctx context.Context, w io.Writer) error {
+		var comp templ.Component = templ.ComponentFunc(func(ctx context.Context, w io.Writer) error {
 			for _, c := range chunks {
 				if _, err := io.WriteString(w, c); err != nil {
 					return err
 				}
+			}
+			if fail && kind == "panic-string" {
+				panic("component gave up: " + fmt.Sprint(len(chunks)))
 			}
 			if fail {
 				return errKinds[kind]
 			}
 			return nil
 		})
+		if kind == "gohtml" {
+			// an html/template whose execution fails after it has written the chunks
+			hs := make([]template.HTML, len(chunks))
+			for i, c := range chunks {
+				hs[i] = template.HTML(c)
+			}
+			tpl := template.Must(template.New("t").Funcs(template.FuncMap{"failnow": func() (string, error) { return "", errors.New("template function failed") }}).
+				Parse(`{{range .Chunks}}{{.}}{{end}}{{if .Fail}}{{failnow}}{{end}}`))
+			comp = templ.FromGoHTML(tpl, map[string]any{"Chunks": hs, "Fail": fail})
+		}
 		opts := []func(*templ.ComponentHandler){templ.WithContentType(ct)}
 		if status != 0 {
 			opts = append(opts, templ.WithStatus(status))
@@ -92,7 +106,12 @@ func runC11(e *emitter, tier string, seed uint64) {
 			}))
 		}
 		rec := httptest.NewRecorder()
-		templ.Handler(comp, opts...).ServeHTTP(rec, httptest.NewRequest("GET", "/", nil))
+		panicked, _ := safely(func() { templ.Handler(comp, opts...).ServeHTTP(rec, httptest.NewRequest("GET", "/", nil)) })
+		if panicked {
+			// the panic reaches the server, which aborts the connection: what the recorder holds was never sent
+			rec = httptest.NewRecorder()
+			rec.Code = 0
+		}
 		f := "0"
 		if fail {
 			f = "1"
@@ -118,6 +137,20 @@ func runC11(e *emitter, tier string, seed uint64) {
 						}
 					}
 				}
+			}
+		}
+	}
+	// a component that is an html/template failing half way, and a component that panics with a value that is not an error
+	for _, st := range []int{0, 201} {
+		for _, eh := range []*c11EH{nil, ehs[2]} {
+			for k := 0; k <= 3; k++ {
+				ch := make([]string, k)
+				for i := range ch {
+					ch[i] = fmt.Sprintf("<li>row-%d</li>", i)
+				}
+				run(st, cts[0], eh, false, ch, true, "gohtml")
+				run(st, cts[0], eh, false, ch, false, "gohtml")
+				run(st, cts[0], eh, false, ch, true, "panic-string")
 			}
 		}
 	}
